@@ -3,7 +3,7 @@ from __future__ import annotations
 
 from .config_rules import check_unit_library
 
-EXPLANATION = "Folds (the repository's own functions and classes interpreted by sa/models.py::ModelEval over abstract tokens) and symbolic analyses: (R1) read_binary_data interpreted with symbolic counters: byte position = sum(count*size)+8*records(+4), counters advanced; (R2/R9) AmrReader/Hydro/Grav/Rt.read_header interpreted on a symbolic file: every decode is aligned BY BYTE POSITION (exact polynomials in ncpu, levelmax, nboundary, noutput, nx*ny*nz) with the record of the layout specification S1 it hits, header length equals S1, decoded fields end up in the right places (xbound per axis, grid counts per (level, cpu) transposed, boundary rows); (R3) one (level, domain) block in owner mode and step_over for every mesh reader: decodes aligned, block length equal for read / not-read variables and step_over; (R4/R6) Loader.load interpreted with recording reader models over 9 scenarios and a two-load history, compared with the traversal specification (per-reader record sequence, file names, offsets zeroed per file, one conjunction mask per block, pieces, counters); (R5) leaf flag over {has a son} x {below / at the deepest loaded level}; (R7) every buffer is filled from its own record times the magnitude of its own unit and labelled with that unit; (R8) configure_units evaluated in the dimension domain D2 against S2; (R11) make_vector_arrays over 12 name-set cases; additional_variables over 4 input sets; (R12) reader.initialize histories (on / off / files gone) with file-system models: files looked up under the resolved output directory also for nout=-1. (R13) UnitsLibrary folded over two instances with different contents; the body fold also runs under partial selections of the AMR variables; the conditions contract of make_conditions (distinct keys, each predicate once on its own unit-carrying buffer) is part of R5. (R14) no memoised function on the loading path reads the environment (effect rule over the resolved call graph with a positive fixture). (R15) a load without position predicates reads every cpu file (hilbert_cpu_list fold shared with C04.R5); R11 also requires that the derived variables leave every loaded variable untouched (no in-place arithmetic in a loaded buffer)."
+EXPLANATION = "Folds (the repository's own functions and classes interpreted by sa/models.py::ModelEval over abstract tokens) and symbolic analyses: (R1) read_binary_data interpreted with symbolic counters: byte position = sum(count*size)+8*records(+4), counters advanced; (R2/R9) AmrReader/Hydro/Grav/Rt.read_header interpreted on a symbolic file: every decode is aligned BY BYTE POSITION (exact polynomials in ncpu, levelmax, nboundary, noutput, nx*ny*nz) with the record of the layout specification S1 it hits, header length equals S1, decoded fields end up in the right places (xbound per axis, grid counts per (level, cpu) transposed, boundary rows); (R3) one (level, domain) block in owner mode and step_over for every mesh reader: decodes aligned, block length equal for read / not-read variables and step_over; (R4/R6) Loader.load interpreted with recording reader models over 9 scenarios and a two-load history, compared with the traversal specification (per-reader record sequence, file names, offsets zeroed per file, one conjunction mask per block, pieces, counters); (R5) leaf flag over {has a son} x {below / at the deepest loaded level}; (R7) every buffer is filled from its own record times the magnitude of its own unit and labelled with that unit; (R8) configure_units evaluated in the dimension domain D2 against S2; (R11) make_vector_arrays over 12 name-set cases; additional_variables over 4 input sets; (R12) reader.initialize histories (on / off / files gone) with file-system models: files looked up under the resolved output directory also for nout=-1. (R13) UnitsLibrary folded over two instances with different contents; the body fold also runs under partial selections of the AMR variables; the conditions contract of make_conditions (distinct keys, each predicate once on its own unit-carrying buffer) is part of R5. (R14) no memoised function on the loading path reads the environment (effect rule over the resolved call graph with a positive fixture). (R15) a load without position predicates reads every cpu file (hilbert_cpu_list fold shared with C04.R5); R11 also requires that the derived variables leave every loaded variable untouched (no in-place arithmetic in a loaded buffer). R12 also folds a hydro descriptor with more than nine variables and an unpadded index column: the variables keep the order of the descriptor lines."
 NOT_DECIDED = 'the values numpy/struct decode; floating-point rounding; descriptors with a single variable; layouts other than S1 (non-Hilbert orderings with more than one bound_key record); parametric ndim (folds use ndim=3 for bodies, 2 for initialisation)'
 TRUSTED = ('CPython ast', 'S1 RAMSES layout (sa/specs/ramses_layout.py)', 'S2 unit dimensions (sa/specs/dims.py)', 'the interpreter sa/models.py and its numpy/struct/os models', 'pint/numpy behave as documented')
 TECHNIQUE = 'static analysis: abstract interpretation of the reader classes over a symbolic file (exact polynomial byte positions, record alignment against a layout specification), finite-scenario folding of the loader protocol, dimension-domain evaluation'
